@@ -36,12 +36,6 @@ theorem Triple.keepDisk' {α : Type} {f : M α} (h : ∀ d, Triple (CD d) f (fun
   · obtain ⟨hc', hd'⟩ := this.2 e s' hf
     exact ⟨hc', by rw [hd']; exact hF⟩
 
-/-- the union of `d'` shows outside the subtree at `q0` what the union of `d` shows, up to xattrs -/
-def FrameD (d d' : Disk) (q0 : Path) : Prop :=
-  ∀ q, q0.isSuffixOf q = false → (merge d' q).dropX = (merge d q).dropX
-
-theorem FrameD.refl (d : Disk) (q0 : Path) : FrameD d d q0 := fun _ _ => rfl
-
 /-- what a creating operation leaves at the path `q` (leaf first) -/
 def Created (isMkdir : Bool) (X : Node) (q : Path) (d : Disk) : Prop :=
   (∃ X', specStat d q = some X' ∧ X'.view = X.view) ∧ (isMkdir = true → ∀ c, specStat d (c :: q) = none)
